@@ -11,6 +11,8 @@ import (
 	"crypto/x509"
 	"encoding/pem"
 	"fmt"
+	"os"
+	"path/filepath"
 	"time"
 
 	"github.com/google/gce-tcb-verifier/extract/extractsev"
@@ -54,12 +56,28 @@ type world struct {
 	rootSets     map[string][]*gen.Identity
 	rootSetNames []string
 	times        map[string]time.Time
+	hostRoots    int
 	timeNames    []string
 }
 
 func mkWorld() *world {
 	nb := time.Date(2025, 1, 1, 0, 0, 0, 0, time.UTC)
 	w := &world{pki: gen.NewPKI(nb), nb: nb, vcekAt: map[int64][]byte{}}
+	// Hostile host: the machine's own trust store (what crypto/x509 falls back to when a verifier
+	// passes no roots) holds a CA the attacker controls. It is read once, at the first such use, so
+	// it is pointed at before any repository code runs. The caller's roots are what count for the
+	// property; nothing may become authentic because of this store.
+	if dir, err := os.MkdirTemp("", "c01-hostroots"); err == nil {
+		f := filepath.Join(dir, "roots.pem")
+		if os.WriteFile(f, pemOf([]*gen.Identity{w.pki.Attacker}), 0o644) == nil && os.Mkdir(filepath.Join(dir, "certs"), 0o755) == nil {
+			os.Setenv("SSL_CERT_FILE", f)
+			os.Setenv("SSL_CERT_DIR", filepath.Join(dir, "certs"))
+			if sp, err := x509.SystemCertPool(); err == nil && sp != nil {
+				w.hostRoots = len(sp.Subjects()) //nolint:staticcheck // count only
+			}
+		}
+		os.RemoveAll(dir)
+	}
 	mk := func(b byte) []byte {
 		m := make([]byte, 48)
 		for i := range m {
@@ -241,10 +259,62 @@ func (w *world) forge(s spec, bit uint) []byte {
 		e = signWith(protowire.AppendVarint(pl, 1), p.Signer.Key)
 	case "payload-truncate":
 		e.SerializedUefiGolden = e.SerializedUefiGolden[:len(e.SerializedUefiGolden)-1-s.param%16]
+	case "payload-reencode": // same message, other bytes; signature left as is (payload malleability)
+		e.SerializedUefiGolden = reencode(e.SerializedUefiGolden, s.param)
 	default:
 		panic("unknown operator " + s.op)
 	}
 	return marshalE(e)
+}
+
+// reencode returns a different wire encoding of the same top-level message: every variant parses to
+// a message equal to the original, so only a verifier that checks the signature over the carried
+// bytes rejects it.
+func reencode(pl []byte, variant int) []byte {
+	type field struct{ raw []byte }
+	var fs []field
+	for b := pl; len(b) > 0; {
+		_, _, n := protowire.ConsumeField(b)
+		if n < 0 {
+			panic("payload does not parse")
+		}
+		fs = append(fs, field{b[:n]})
+		b = b[n:]
+	}
+	nonMinimal := func(f []byte) []byte { // tag varint with a redundant continuation byte
+		_, _, n := protowire.ConsumeTag(f)
+		out := append([]byte(nil), f[:n]...)
+		out[n-1] |= 0x80
+		out = append(out, 0)
+		return append(out, f[n:]...)
+	}
+	var out []byte
+	switch variant % 4 {
+	case 0: // last field repeated (scalars: last wins, same value)
+		for _, f := range fs {
+			if num, typ, _ := protowire.ConsumeTag(f.raw); typ == protowire.VarintType && num > 0 {
+				out = append(append([]byte(nil), pl...), f.raw...)
+			}
+		}
+		if out == nil {
+			out = nonMinimal(pl)
+		}
+	case 1: // first field's tag in a non-minimal varint
+		out = nonMinimal(fs[0].raw)
+		for _, f := range fs[1:] {
+			out = append(out, f.raw...)
+		}
+	case 2: // fields in reverse order
+		for i := len(fs) - 1; i >= 0; i-- {
+			out = append(out, fs[i].raw...)
+		}
+	case 3: // last field's tag in a non-minimal varint
+		for _, f := range fs[:len(fs)-1] {
+			out = append(out, f.raw...)
+		}
+		out = append(out, nonMinimal(fs[len(fs)-1].raw)...)
+	}
+	return out
 }
 
 func (w *world) specs(c *core.Ctx) []spec {
@@ -285,10 +355,10 @@ func (w *world) specs(c *core.Ctx) []spec {
 	simple := []string{"sig-truncate", "sig-extend", "sig-empty", "sig-zero", "sig-swap", "payload-swap", "resign-attacker-keep-cert",
 		"attacker-chain", "root-cert-other-key", "self-signed-leaf", "inter-leaf", "short-root-leaf", "root-as-signer", "no-cert",
 		"pkcs1v15", "pss-sha384", "pss-salt", "alt-alg", "wire-unknown-field", "wire-dup-sig-bad-last", "wire-dup-sig-good-last",
-		"payload-unknown-field", "payload-unknown-field-resigned", "payload-truncate"}
+		"payload-unknown-field", "payload-unknown-field-resigned", "payload-truncate", "payload-reencode"}
 	for _, op := range simple {
 		nparam := 1
-		if op == "pss-salt" || op == "sig-truncate" || op == "sig-extend" || op == "payload-truncate" {
+		if op == "pss-salt" || op == "sig-truncate" || op == "sig-extend" || op == "payload-truncate" || op == "payload-reencode" {
 			nparam = 4
 		}
 		if op == "alt-alg" {
@@ -493,6 +563,7 @@ func entries() []entry {
 
 func run(c *core.Ctx) {
 	w := mkWorld()
+	c.Max("host-trust-store-attacker-roots", int64(w.hostRoots))
 	specs := w.specs(c)
 	ents := entries()
 	genuineAccept := map[string]int{}
